@@ -119,9 +119,11 @@ NA_REASON = "not claimed"
 # families added later (kept apart from the base texts above)
 ADDED = {
  "C02": " Also: payloads whose Adler-32 halves sit on their boundary values in the three zlib modes; streams of short-code blocks larger than the 64 KiB staging buffer with input/output ending at every byte near the boundary; the decoder told the window size (hist_bits); and round trips in the documented build variants IGZIP_HIST_SIZE=8192 and LONGER_HUFFTABLE (library and harness rebuilt with the define).",
- "C01": " Later input classes: constant runs of every length, Adler-32 boundary inputs, mixes of long far-match symbols, alphabets with gaps of exact sizes (zero runs of 3, 10-12, 137-140, 148-150 code lengths), and near-miss far matches (KEY x CONT ... KEY CONT at the first and last distance of every distance code) under the AVX-512, AVX2 and base levels.",
- "C06": " Later families: mutants of the library's own streams under model-guided schedules, deep incomplete distance sets, one-shot decoding at every output size, the exact 'repeat previous length first' fault, Adler-boundary payloads with every trailer bit flipped.",
- "C17": " hist_bits is also chosen after the dictionary calls (only the level is documented as needed before them). spec/HashWindow.tla (position arithmetic of the match finders) is model-checked in four variants.",
+ "C01": " Later input classes: constant runs of every length, Adler-32 boundary inputs, mixes of long far-match symbols, alphabets with gaps of exact sizes (zero runs of 3, 10-12, 137-140, 148-150 code lengths), and near-miss far matches (KEY x CONT ... KEY CONT at the first and last distance of every distance code) under the AVX-512, AVX2 and base levels; a long run beginning at every fill level of the smallest token buffers; single matches at every length-code edge; one far match per distance code; hist_bits 1-8 with 1-bit literals in groups; whole stored sub-blocks with the output at the bound.",
+ "C11": " Later: verifier parents made of 1- and 2-byte stored blocks; producer with a flush left pending and completed together with more input (coarse sweep plus the probe-located staged-marker family of C14) and under the other CPU levels on worst-case Adler inputs.",
+ "C19": " The same headers are also fed through isal_inflate (its own reader path) at every split point, with and without header CRC, and zlib headers announcing a dictionary; judged by TraceInflate.",
+ "C06": " Later families: mutants of the library's own streams under model-guided schedules, deep incomplete distance sets, one-shot decoding at every output size, the exact 'repeat previous length first' fault, Adler-boundary payloads with every trailer bit flipped, invalid look-back streams one-shot at every output size under every kernel.",
+ "C17": " hist_bits is also chosen after the dictionary calls (only the level is documented as needed before them); dictionaries longer than the window with data referring to the oldest bytes of their last 32 KiB (both codecs); window restarts with unaligned level buffers. spec/HashWindow.tla (position arithmetic of the match finders) is model-checked in four variants.",
  "C18": " The table installation attempted after every call alternates the static and the custom table, and the first call's output room is swept so that the block header is left half written behind a gzip/zlib header.",
  "C05": " spec/DeflateBuffer.tla (byte budget of the internal buffer when a stored block is admitted) is model-checked with the two repairs as switches. Later families: every input length with the smallest level buffers (buffer ending at an inaccessible page), level buffers at unaligned addresses, stored tails waiting in the internal buffer behind a pending wrapper header, and the level-3 look-ahead queued behind a pending stored block (two probe runs of the library locate the block length and input position, avail_out is swept around it).",
  "C07": " Later families: model-guided schedules (least-visited environment choice from the current state of the TLA+ control machine), packed streams around the 64 KiB staging buffer, long matches and stored blocks resuming at its end, small-then-huge calls.",
